@@ -529,14 +529,17 @@ class MockIncludeDirective:
             self.renderer.document["source"] = str(path)
             self.renderer.reporter.source = str(path)
             self.renderer.reporter.get_source_and_line = lambda li: (str(path), li)
+            # references are resolved relative to the outermost document,
+            # also when this include is itself inside an included file
+            root_dir = Path(include_log[0][0]).parent
             if "relative-images" in self.options:
                 self.renderer.md_env["relative-images"] = os.path.relpath(
-                    path.parent, source_dir
+                    path.parent, root_dir
                 )
             if "relative-docs" in self.options:
                 self.renderer.md_env["relative-docs"] = (
                     self.options["relative-docs"],
-                    source_dir,
+                    root_dir,
                     path.parent,
                 )
             self.renderer.nested_render_text(
